@@ -39,7 +39,7 @@ func prob(t *rapid.T, label string, p float64) bool {
 // GenOpts steers the spec generator towards what a property needs.
 type GenOpts struct {
 	PPred       float64 // per-task probability of a predicate
-	PFallback   float64 // per-task probability of FallbackWith (when it has outputs)
+	PFallback   float64 // per-task probability of FallbackWith
 	PInstrument float64 // per-task probability of cff.Instrument (needs emitters)
 	PEmitters   float64 // probability that the directive passes emitters at all
 	PInstrD     float64 // probability of InstrumentFlow/InstrumentParallel given emitters
@@ -62,7 +62,7 @@ type GenOpts struct {
 func DefaultOpts() GenOpts {
 	return GenOpts{PPred: 0.2, PFallback: 0.15, PInstrument: 0.3, PEmitters: 0.3, PInstrD: 0.6, PWrap: 0.2,
 		PParallel: 0.35, PEnd: 0.4, PCOE: 0.5, MaxTasks: 7, PShadow: 0.15, PBare: 0.15,
-		Spellings: []string{"lit", "lit", "lit", "top", "method", "funcvar", "callret", "imported", "generic"}, ExtTypes: true}
+		Spellings: []string{"lit", "lit", "lit", "top", "method", "funcvar", "callret", "imported", "generic", "pkgvar"}, ExtTypes: true}
 }
 
 type typePool struct {
@@ -181,7 +181,7 @@ func GenFlow(t *rapid.T, name string, o GenOpts) *rt.Spec {
 		}
 		ts.Ctx = prob(t, "ctx", 0.5)
 		ts.Err = prob(t, "err", 0.5)
-		if sp == "top" || sp == "imported" || sp == "generic" {
+		if sp == "top" || sp == "imported" || sp == "generic" || sp == "pkgvar" {
 			ts.Ctx = true // static functions find their environment through the context
 		}
 		if len(ts.Out) == 0 {
@@ -198,7 +198,7 @@ func GenFlow(t *rapid.T, name string, o GenOpts) *rt.Spec {
 				consumed[x.Key()] = true
 			}
 		}
-		if !o.ModSubset && len(ts.Out) > 0 && prob(t, "fallback", o.PFallback) {
+		if !o.ModSubset && prob(t, "fallback", o.PFallback) { // (an output-less task takes cff.FallbackWith() without values)
 			ts.Fallback = true
 			ts.Err = true
 		}
@@ -304,9 +304,9 @@ func GenParallel(t *rapid.T, name string, o GenOpts) *rt.Spec {
 		run := 1 + uniform(t, "run", 3)
 		asTasks := prob(t, "astasks", 0.5)
 		for k := 0; k < run && i < np; k++ {
-			sp := []string{"lit", "lit", "lit", "top", "method", "funcvar", "callret", "generic", "samemethod", "samemethod"}[uniform(t, "spelling", 10)]
+			sp := []string{"lit", "lit", "lit", "top", "method", "funcvar", "callret", "generic", "samemethod", "samemethod", "pkgvar"}[uniform(t, "spelling", 11)]
 			pt := rt.PTaskSpec{Unit: unit, Ctx: prob(t, "ctx", 0.5), Err: prob(t, "err", 0.5), Group: -1, Sp: sp}
-			if sp == "top" || sp == "generic" {
+			if sp == "top" || sp == "generic" || sp == "pkgvar" {
 				pt.Ctx = true
 			}
 			if asTasks {
